@@ -41,17 +41,17 @@ type vC05Stored struct {
 }
 
 type vC05H struct {
-	c      *vh.Case
-	n      *vNet
-	maxAge time.Duration
-	keys   []string
-	state  map[string]*vC05Stored // datastore key -> stored record (journal replay)
-	dsOf   map[string]string      // record key -> datastore key
-	lastRank map[string]int       // datastore key -> rank of the last put since the last delete
-	jpos   int
-	valID  int
-	acked  map[string]vInVal // record key -> best acknowledged value still expected readable
-	sig    []string
+	c        *vh.Case
+	n        *vNet
+	maxAge   time.Duration
+	keys     []string
+	state    map[string]*vC05Stored // datastore key -> stored record (journal replay)
+	dsOf     map[string]string      // record key -> datastore key
+	lastRank map[string]int         // datastore key -> rank of the last put since the last delete
+	jpos     int
+	valID    int
+	acked    map[string]vInVal // record key -> best acknowledged value still expected readable
+	sig      []string
 }
 
 func (h *vC05H) newVal(key string, rank int) vInVal {
@@ -448,7 +448,7 @@ func (h *vC05H) burst(what string) {
 
 func TestVerif_C05_handler(t *testing.T) {
 	vh.Run(t, vh.Spec{Prop: "C05", Unit: "handler", Quick: 600, Thorough: 20000, CostMs: 8,
-		Rule: "server-mode DHT over the journaling datastore with a generated validator (rank, invalid flag, validator expiry, key binding), MaxRecordAge 1 h, GC interval in {7 min, 25 min, 24 h}; sequential histories of 20-40 operations over 2-4 keys in virtual time: PUT_VALUE frames over fresh inbound streams (valid with PRNG rank, invalid, made for another key, validator-expired, message key != record key, empty message key, nil record, sender-chosen receive times), GET_VALUE frames, local PutValue (valid / invalid / same value) over a small simulated network, local reads, concurrent bursts of 2-5 PUT_VALUE + one PutValue on one key, clock advances around the maximum age; witness = datastore journal (virtual time stamped per access); non-trivial = at least one acknowledged put, one rejected worse or invalid put and one read after an advance beyond the maximum age; distinct by operation/outcome sequence",
+		Rule:    "server-mode DHT over the journaling datastore with a generated validator (rank, invalid flag, validator expiry, key binding), MaxRecordAge 1 h, GC interval in {7 min, 25 min, 24 h}; sequential histories of 20-40 operations over 2-4 keys in virtual time: PUT_VALUE frames over fresh inbound streams (valid with PRNG rank, invalid, made for another key, validator-expired, message key != record key, empty message key, nil record, sender-chosen receive times), GET_VALUE frames, local PutValue (valid / invalid / same value) over a small simulated network, local reads, concurrent bursts of 2-5 PUT_VALUE + one PutValue on one key, clock advances around the maximum age; witness = datastore journal (virtual time stamped per access); non-trivial = at least one acknowledged put, one rejected worse or invalid put and one read after an advance beyond the maximum age; distinct by operation/outcome sequence",
 		Clauses: []string{"stored-record-valid-and-keyed", "never-downgraded", "miskeyed-put-rejected-without-write", "invalid-put-rejected-without-write", "put-outcome-as-predicted", "put-ack-iff-written", "acked-put-readable-until-aged-out", "aged-out-record-never-served", "local-put-refused-when-better-stored", "local-put-accepted-when-not-worse", "local-invalid-put-refused", "served-record-has-requested-key", "stored-record-stamped-with-receive-time", "delete-only-aged-out"}},
 		func(c *vh.Case) {
 			c.Bubble(t, 1000*time.Hour, "handler-hang", func(t *testing.T) {
